@@ -595,7 +595,34 @@ class Pos2Kw(ast.NodeTransformer):
         return c
 
 
-KINDS = {"pos2kw": Pos2Kw, "mergeif": MergeIf, "splitif": SplitIf, "elsewrap": ElseWrap, "unelse": UnElse, "ternary2if": Ternary2If, "demorgan": DeMorgan, "unguard": UnGuard, "imports": ImportStyle, "comp2loop": Comp2Loop, "swapindep": SwapIndependent, "splitunpack": SplitUnpack, "flip": Flip, "invert": Invert, "kwargs": Kwargs, "aug": Aug, "noise": Noise, "annot": Annot, "inlinetemp": InlineTemp, "extracttemp": ExtractTemp}
+class FString2Format(ast.NodeTransformer):
+    """f"a{x}b{y!r}"  ->  "a{}b{!r}".format(x, y)     (no nested format specs that are themselves expressions; logging calls are left alone)"""
+
+    def visit_JoinedStr(self, n):
+        self.generic_visit(n)
+        tmpl, args = "", []
+        for v in n.values:
+            if isinstance(v, ast.Constant) and isinstance(v.value, str):
+                tmpl += v.value.replace("{", "{{").replace("}", "}}")
+            elif isinstance(v, ast.FormattedValue):
+                conv = {-1: "", 115: "!s", 114: "!r", 97: "!a"}.get(v.conversion, None)
+                if conv is None:
+                    return n
+                spec = ""
+                if v.format_spec is not None:
+                    if not (isinstance(v.format_spec, ast.JoinedStr) and all(isinstance(x, ast.Constant) for x in v.format_spec.values)):
+                        return n
+                    spec = ":" + "".join(x.value for x in v.format_spec.values)
+                tmpl += "{" + conv + spec + "}"
+                args.append(v.value)
+            else:
+                return n
+        if not args:
+            return n
+        return ast.copy_location(ast.Call(func=ast.Attribute(value=ast.Constant(value=tmpl), attr="format", ctx=ast.Load()), args=args, keywords=[]), n)
+
+
+KINDS = {"fstring2format": FString2Format, "pos2kw": Pos2Kw, "mergeif": MergeIf, "splitif": SplitIf, "elsewrap": ElseWrap, "unelse": UnElse, "ternary2if": Ternary2If, "demorgan": DeMorgan, "unguard": UnGuard, "imports": ImportStyle, "comp2loop": Comp2Loop, "swapindep": SwapIndependent, "splitunpack": SplitUnpack, "flip": Flip, "invert": Invert, "kwargs": Kwargs, "aug": Aug, "noise": Noise, "annot": Annot, "inlinetemp": InlineTemp, "extracttemp": ExtractTemp}
 
 
 _EXTERNS = {}
